@@ -73,47 +73,16 @@ def d11_1(ctx):
                 ctx.check(isinstance(v, bytes) and len(v) == 8, ckey(fi, "context-literal"), c, "explicit sender context is 8 bytes", f"build_request called with a sender context of {len(v) if isinstance(v, bytes) else '?'} bytes", value=v)
 
 
-@rule(P, "D11.2", "T-LEN", floor=2)
+@rule(P, "D11.2", "T-WITNESS", floor=2)
 def d11_2(ctx):
-    """The length field is len() of exactly the bytes that follow the header; arguments reach the header in the right order."""
-    base = ctx.model.cls(f"{PB}:RequestPacket")
-    fn = base.methods.get("build_request")
-    hdr = base.methods.get("_build_header")
-    call = None
-    for c in walk(fn):
-        if isinstance(c, ast.Call) and attr_path(c.func) == "self._build_header":
-            call = c
-    if call is None:
-        ctx.violation(ckey(base.key + ".build_request"), fn, "build_request does not build a header")
-        return
-    hparams = [a.arg for a in hdr.args.args]
-    bparams = [a.arg for a in fn.args.args]
-    args = list(call.args)
-    roles = dict(zip(hparams, args))
-    len_arg = roles.get(hparams[1])
-    measured = atom_name(len_arg.args[0]) if isinstance(len_arg, ast.Call) and call_name(len_arg) == "len" and len(len_arg.args) == 1 else None
-    rets = [r for r in walk(fn) if isinstance(r, ast.Return)]
-    follows = None
-    if len(rets) == 1 and isinstance(rets[0].value, ast.BinOp) and isinstance(rets[0].value.op, ast.Add):
-        hv = atom_name(rets[0].value.left)
-        follows = atom_name(rets[0].value.right)
-        hassign = [n for n in walk(fn) if isinstance(n, ast.Assign) and atom_name(n.targets[0]) == hv and n.value is call]
-        if not hassign:
-            follows = None
-    ctx.check(measured is not None and measured == follows, ckey(base.key + ".build_request", "length"), call, f"length = len({measured}) and the frame is header + {follows}",
-              f"length field is `{src(len_arg) if len_arg is not None else None}` but the bytes after the header are `{follows}`: the length field does not equal the number of bytes that follow", measured=measured, follows=follows)
-    good = (attr_path(roles.get(hparams[0])) == "self._encap_command" and atom_name(roles.get(hparams[2])) == "session_id" and atom_name(roles.get(hparams[3])) == "context" and atom_name(roles.get(hparams[4])) == "option"
-            and "session_id" in bparams)
-    ctx.check(good, ckey(base.key + ".build_request", "args"), call, "command, length, session, context, option passed in header order", f"header arguments are wired as {[src(a) for a in args]}", args=[src(a) for a in args])
-    # the common packet is built from the message with the connection id as address data
-    cpf = None
-    for c in walk(fn):
-        if isinstance(c, ast.Call) and attr_path(c.func) == "self._build_common_packet_format":
-            cpf = c
-    kw = {k.arg: atom_name(k.value) for k in cpf.keywords} if cpf else {}
-    msg_ok = cpf is not None and cpf.args and any(isinstance(n, ast.Assign) and atom_name(n.targets[0]) == atom_name(cpf.args[0]) and isinstance(n.value, ast.Call) and attr_path(n.value.func) == "self.build_message" for n in walk(fn))
-    ctx.check(msg_ok and kw.get("addr_data") == "target_cid" and measured == next((atom_name(n.targets[0]) for n in walk(fn) if isinstance(n, ast.Assign) and n.value is cpf), None), ckey(base.key + ".build_request", "cpf"), cpf or fn,
-              "common packet = CPF(build_message(), addr_data=target_cid) and is what the length measures", "the common packet is not built from build_message() with the connection id, or is not what the length field measures")
+    """The length field is len() of exactly the bytes that follow the header; command, session, context and option reach the
+    header in their own fields; the common packet is built from the message with the connection id as address data.  Decided on
+    the witness frames of the request packet classes (connected, unconnected and header-only requests, compared byte for byte
+    with the frame the encapsulation layer prescribes); an earlier form required `return header + common` and alarmed on
+    `b"".join((header, body))`."""
+    from .packets import _emit
+
+    _emit(ctx, {"read-request", "session-request", "generic-request", "multi-request", "write-request", "raw-request"})
 
 
 @rule(P, "D11.3", "T-LAYOUT", floor=3)
